@@ -52,6 +52,41 @@ func (e BridgeEngine) genKind(r *Run, kind string) (Step, bool) {
 	ctx := w.Ctx()
 	v := w.ViewChain(ctx, c.Name)
 	blk := func(txs ...Tx) Step { return Step{Kind: "block", DtMs: e.dt(r), N: 1, Txs: txs} }
+	if r.Prop == "C07" && len(v.Oracles) > 0 && v.OnlinePower().IsZero() && r.Pct(50) {
+		// every oracle of the chain is offline: governance lowers the stake threshold below one FX and
+		// an approved oracle without a record bonds such a stake (bridge power zero) - the only one online
+		one := sdkmath.NewInt(1_000_000_000_000_000_000)
+		if !v.Params.DelegateThreshold.Amount.LT(one) {
+			return Step{Kind: "gov", DtMs: e.dt(r), A: A("what", "update_params", "chain", c.Name, "delegate_threshold_raw", []string{"300000000000000000", "1", "999999999999999999"}[r.Rng.IntN(3)])}, true
+		}
+		appr := map[string]bool{}
+		for _, a := range v.Approved {
+			appr[a] = true
+		}
+		var list []string
+		spare := -1
+		for j := range c.Oracles {
+			ob := c.oracleKey(w, j).Bech()
+			_, has := v.Oracles[ob]
+			if appr[ob] {
+				list = append(list, fmt.Sprint(j))
+				if !has {
+					amt := v.Params.DelegateThreshold.Amount.AddRaw(int64(r.Rng.IntN(1000)))
+					if !amt.LT(one) {
+						amt = one.SubRaw(1)
+					}
+					r.Probe("only-zero-power-oracle-bonds")
+					return blk(Tx{K: "bond", S: KeyName("oracle", c.oracleKey(w, j).Idx), A: A("chain", c.Name, "o", j, "amount", amt.String(), "val", r.Rng.IntN(r.Cfg.World.Validators))}), true
+				}
+			} else if !has && spare < 0 {
+				spare = j
+			}
+		}
+		if spare >= 0 {
+			list = append(list, fmt.Sprint(spare))
+			return Step{Kind: "gov", DtMs: e.dt(r), A: A("what", "update_oracles", "chain", c.Name, "oracles", strings.Join(list, ","))}, true
+		}
+	}
 	switch kind {
 	case "claim":
 		txs := e.genClaims(r, c, v)
